@@ -169,7 +169,7 @@ func (g *gen) applyContract(fr *frame, cur *node, st *State, fs *FuncSpec, sig *
 		return nil, cur
 	}
 	for _, c := range fs.Requires {
-		t, err := pre.trBool(c.E)
+		t, err := pre.trAssert(c.E)
 		if err != nil {
 			g.errorf("%s: requires [%s] of %s: %v", g.name, c.Label, fs.Key, err)
 			continue
@@ -215,7 +215,7 @@ func (g *gen) applyContract(fr *frame, cur *node, st *State, fs *FuncSpec, sig *
 		g.errorf("%s: call of %s: %v", g.name, fs.Key, err)
 	} else {
 		for _, c := range fs.Ensures {
-			t, err := post.trBool(c.E)
+			t, err := post.trAssume(c.E)
 			if err != nil {
 				g.errorf("%s: ensures [%s] of %s: %v", g.name, c.Label, fs.Key, err)
 				continue
@@ -332,7 +332,7 @@ func (g *gen) lockOp(fr *frame, cur *node, st *State, op string, mv ssa.Value, p
 			}
 			for _, li := range g.P.spec.LockInvs[sk+"."+ow.lockField] {
 				e := &env{g: g, vars: map[string]binding{li.Var: {ow.base, xtOf(types.NewPointer(ow.structT))}}, st: st, old: st, pkgPath: li.PkgPath, imports: li.Imports}
-				t, err := e.trBool(li.E)
+				t, err := e.trAssume(li.E)
 				if err != nil {
 					g.errorf("lockinv %s.%s: %v", li.Type, li.Field, err)
 					continue
@@ -352,7 +352,7 @@ func (g *gen) lockOp(fr *frame, cur *node, st *State, op string, mv ssa.Value, p
 			sk, _ := namedStructKey(ow.structT)
 			for _, li := range g.P.spec.LockInvs[sk+"."+ow.lockField] {
 				e := &env{g: g, vars: map[string]binding{li.Var: {ow.base, xtOf(types.NewPointer(ow.structT))}}, st: st, old: st, pkgPath: li.PkgPath, imports: li.Imports}
-				t, err := e.trBool(li.E)
+				t, err := e.trAssert(li.E)
 				if err != nil {
 					g.errorf("lockinv %s.%s: %v", li.Type, li.Field, err)
 					continue
@@ -363,10 +363,20 @@ func (g *gen) lockOp(fr *frame, cur *node, st *State, op string, mv ssa.Value, p
 		if fr.top || true {
 			e := g.topEnv(st, &State{m: map[string]string{}}, nil)
 			for _, c := range g.fs.AtUnlock {
-				t, err := e.trBool(c.E)
+				t, err := e.trAssert(c.E)
 				if err != nil {
 					g.errorf("%s: atunlock [%s]: %v", g.name, c.Label, err)
 					continue
+				}
+				if f, ok := g.known[g.name+"/atunlock:"+c.Label]; ok && f.Region != "" {
+					if re, err := parseExpr(f.Region); err == nil {
+						if rt, err := e.trBool(re); err == nil {
+							g.addObl(cur, "finding", "atunlock:"+c.Label+"@finding", c.Src, g.pos(pos), t, false)
+							t = or(rt, t)
+						} else {
+							g.errorf("known finding region for %s: %v", c.Label, err)
+						}
+					}
 				}
 				g.addObl(cur, "atunlock", "atunlock:"+c.Label, c.Src, g.pos(pos), t, false)
 			}
@@ -721,7 +731,7 @@ func (g *gen) preCallAsserts(fr *frame, cur *node, st *State, key string, instr 
 				e.vars[k] = v
 			}
 		}
-		t, err := e.trBool(pc.C.E)
+		t, err := e.trAssert(pc.C.E)
 		if err != nil {
 			g.errorf("%s: precall %s [%s]: %v", g.name, pc.Callee, pc.C.Label, err)
 			continue
@@ -857,7 +867,7 @@ func (g *gen) execMapRange(fr *frame, cur *node, st *State, m string, mc *ssa.Ma
 		e := g.topEnv(s, &State{m: map[string]string{}}, nil)
 		bindEnv(e, ri)
 		for _, c := range ls.Invs {
-			t, err := e.trBool(c.E)
+			t, err := e.trAssert(c.E)
 			if err != nil {
 				g.errorf("%s: rangeloop %d invariant [%s]: %v", g.name, ord, c.Label, err)
 				continue
@@ -897,7 +907,7 @@ func (g *gen) execMapRange(fr *frame, cur *node, st *State, m string, mc *ssa.Ma
 		e := g.topEnv(st, &State{m: map[string]string{}}, nil)
 		bindEnv(e, ri)
 		for _, c := range ls.Invs {
-			if t, err := e.trBool(c.E); err == nil {
+			if t, err := e.trAssume(c.E); err == nil {
 				hn.assume(t)
 			}
 		}
